@@ -90,8 +90,8 @@ chk('C15', 'model_checking',
     'Lifecycle.tla models the ownership protocol of libavoid at object granularity (shapes, pins, junctions, connectors: unborn/queued/live/dying/freed; connector ends, pins and hyperedge registrations as references; '
     'documented preconditions as enabling conditions; transactions on/off). TLC checks for all legal histories to a depth that no reference to a freed object exists in any state. Histories are behaviours of the '
     'specification (TLC simulation) replayed on an ASan+UBSan+LSan build of the real library; every completed execution is trace-validated against Lifecycle (each call an enabled action; at every processing point the live object sets, the shape rectangles and what every '
-    'connector end is attached to -- pin class of a shape, junction, free point -- equal the model\'s); an execution that ends in a failed assertion, sanitizer report, crash or non-termination is rejected and reported. A last stage runs the conformance harnesses of the other four libraries (libvpsc, libcola, libtopology, libdialect, and the shortest-paths/heap templates) on the same sanitizer build over TLC-generated/seeded inputs and reports any sanitizer finding per allocation or access site.',
-    'Memory errors / UB below object level are seen by the sanitizers on the replayed histories, not by the specification; the object-level protocol model is libavoid only (2 shapes, 1 junction, 3 connectors), the other libraries are covered by the sanitizer stage alone. F10, F17, F18, F27, F37 and F50 (libdialect leaks) are known findings; F16, F7 and F49 were repaired (fix: commits 7e61e2d, 41ebabe, e517133).',
+    'connector end is attached to -- pin class of a shape, junction, free point -- equal the model\'s); an execution that ends in a failed assertion, sanitizer report, crash or non-termination is rejected and reported. The hyperedge scenarios of C12 (junctions of degree 4..5, both improvement options, registration by junction or terminal list, follow-up transactions) are replayed on the same sanitizer build; the executions that ended cleanly are run once more in one process so that the exit report of LeakSanitizer can be attributed (one finding per libavoid allocation site). A last stage runs the conformance harnesses of the other four libraries (libvpsc, libcola, libtopology, libdialect, and the shortest-paths/heap templates) on the same sanitizer build over TLC-generated/seeded inputs and reports any sanitizer finding per allocation or access site.',
+    'Memory errors / UB below object level are seen by the sanitizers on the replayed histories, not by the specification; the object-level protocol model is libavoid only (2 shapes, 1 junction, 3 connectors), the other libraries are covered by the sanitizer stage alone. F10, F17, F18, F27, F37, F50 (libdialect leaks) and F61 (hyperedge improver leak) are known findings; F16, F7 and F49 were repaired (fix: commits 7e61e2d, 41ebabe, e517133).',
     'TLA+ object-lifecycle protocol; TLC-generated API histories replayed on a sanitizer build; trace validation', '4/C15')
 
 chk('C11', 'model_checking',
